@@ -447,7 +447,25 @@ def main():
         tier = a.tier if a.tier in ("quick", "thorough") else "quick"
         kind = props.P[a.pid].get("kind", "staking")
         if kind == "staking":
-            sys.exit(check(a.pid, tier, a.seed))
+            try:
+                rc = check(a.pid, tier, a.seed)
+            except Exception:  # noqa: BLE001
+                # the machinery itself failed on this tree (e.g. a reader met bytes it cannot interpret): the
+                # property is not shown to hold; the replay names what broke
+                import traceback
+                tb = traceback.format_exc()
+                path = write_replay(a.pid, "machinery", a.seed, 0, {"broken_theorem_or_stream": "the check crashed before reaching a verdict", "traceback": tb[-3000:]})
+                evdir = os.environ.get("MW_EVIDENCE_DIR") or os.path.join(ROOT, "evidence")
+                os.makedirs(evdir, exist_ok=True)
+                json.dump({"property_id": a.pid, "tier": tier, "seed": a.seed, "level": "proof",
+                           "coverage": {"obligations": 0, "discharged": 0, "evaluations": 0, "distinct_nontrivial": 0,
+                                        "rule": "the check crashed; see the replay", "samples": [{"traceback": tb[-800:]}],
+                                        "checker_cmd": "python3 run.py check %s" % a.pid, "trusted_base": props.TRUSTED_BASE,
+                                        "theorems": [], "axioms": {}},
+                           "wall_s": 0.0, "violations": 1}, open(os.path.join(evdir, a.pid + ".json"), "w"), indent=1)
+                print("VIOLATION property=%s replay=%s no-failing-input-found" % (a.pid, path))
+                rc = 1
+            sys.exit(rc)
         from vlib import special
         sys.exit(special.check(a.pid, tier, a.seed))
     if a.cmd == "replay":
